@@ -229,16 +229,20 @@ func runDocsChannels(o vh.Opts, rng *vh.RNG, rep *vh.Report, tmp string) {
 	}
 	rep.AddChannel(gr, o.Driver)
 
-	ft := vh.NewChannel("docs.fetch", "processor.IndexFetch over a real docs file (GetBlocksOffsets from the writer's BlockOffsets, ReadDocs = disk.DocsReader) vs indexFetch: request lists mixing stored positions of several blocks, repetitions and DocPosNotFound; non-trivial = documents of >= 2 blocks requested")
+	ft := vh.NewChannel("docs.fetch", "processor.IndexFetch over a real docs file (GetBlocksOffsets from the writer's BlockOffsets, ReadDocs = disk.DocsReader) vs indexFetch: request lists mixing stored positions of several blocks (incl. one tiny document per block: blocks shorter than 64 bytes), repetitions and DocPosNotFound, each request issued twice on one reader (cold, then warm doc-block cache); non-trivial = documents of >= 2 blocks requested")
 	for i := 0; i < o.Pick(40, 400); i++ {
 		n := rng.Range(2, 25)
 		var ids []seq.ID
 		var docs [][]byte
 		for k := 0; k < n; k++ {
 			ids = append(ids, seq.ID{MID: seq.MID(9000 - k), RID: 1})
-			docs = append(docs, mkDoc(k+i, rng.Range(0, 40)))
+			if i%2 == 1 {
+				docs = append(docs, mkDoc(k+i, rng.Range(0, 12))) // tiny blocks (one per document): several per 64 bytes of file
+			} else {
+				docs = append(docs, mkDoc(k+i, rng.Range(0, 40)))
+			}
 		}
-		d, err := writeDocsFile(dir, ids, docs, []int{0, 30, 100}[i%3])
+		d, err := writeDocsFile(dir, ids, docs, []int{0, 1, 100, 1}[i%4])
 		if err != nil {
 			d.close()
 			continue
@@ -273,6 +277,16 @@ func runDocsChannels(o vh.Opts, rng *vh.RNG, rep *vh.Report, tmp string) {
 					}
 				}
 				impl = "ok " + vh.JoinStrs(out, ",")
+				// the same request again on the same reader (warm doc-block cache) must give the same documents
+				res2 := make([][]byte, len(ps))
+				if err := processor.IndexFetch(make([]seq.ID, len(ps)), stopwatch.New(), &fakeFetchIndex{d.offsets, ps, &d.reader}, res2); err != nil {
+					impl = "warm-read-error"
+				}
+				for k := range res {
+					if string(res[k]) != string(res2[k]) || (res[k] == nil) != (res2[k] == nil) {
+						impl = "warm-read-differs"
+					}
+				}
 			}
 		}()
 		// the file as the model sees it: offset = payload of the block
